@@ -1,5 +1,5 @@
 """C09 - Markdown round trip: same meaning, idempotent, exact on normal form (spec corpus + E2 trees + inline menu)."""
-from mc import core, trees, inlines, leafspell
+from mc import core, trees, inlines, leafspell, inlinespell
 
 ID = 'C09'
 TECHNIQUE = ('complete enumeration of the 652 spec examples and exhaustive enumeration of all document trees (<= 3/4 nodes) x '
@@ -39,6 +39,7 @@ def jobs(tier):
     for ci in range(len(inlines.CONTAINERS)):
         js.append(('inline-c', ci, b['inline_seq']))
     js += leafspell.jobs()
+    js += [j for j in inlinespell.jobs() if j[1] != 'charref']
     return js
 
 
@@ -191,6 +192,29 @@ def run_job(job):
                     r.outcome('trees:exact' if exact else 'trees')
             if i < 2:
                 r.sample(dict(markdown=trees.to_markdown(blocks, dict(trees.DEFAULTS, table_pipes='padded'))[0]), 1)
+    elif kind == 'inlinespell':
+        for case in inlinespell.cases_of_job(job):
+            r.states += 1
+            if '&' in case[1] and ';' in case[1] or '\\' in case[3].get('dest', '') + case[3].get('title', ''):
+                r.skip('character reference, or backslash escape in a destination/title (recorded by the property itself, outside the domain)')
+                continue
+            for ctx in inlinespell.CONTEXTS:
+                x = inlinespell.in_context(case, ctx)
+                if x is None:
+                    continue
+                md = x[0]
+                for nw in (False, True):
+                    r.transitions += 1
+                    bad = roundtrip(md, nw, False)
+                    if bad is None:
+                        r.skip('input cannot be rendered (C01)')
+                        continue
+                    r.validated += 1
+                    for clause, want, got in bad:
+                        r.fail(dict(markdown=md, normalize_whitespace=nw, clause=clause, exact=False, family=case[0], context=ctx),
+                               clause + ':inline-spelling:' + case[0], expected=want, observed=got)
+                    r.outcome('inline-spelling:' + case[0])
+        r.sample(dict(space='inline spellings', family=job[1]), 1)
     elif kind == 'leafspell':
         for case in leafspell.cases_of_job(job):
             r.states += 1
